@@ -361,17 +361,25 @@ def script_oracle(case, out):
 
 def scripts(rep, impl, model, rng, tier):
     tab = proto_close_table()
-    n = 12 if tier == "quick" else 150
+    n = 40 if tier == "quick" else 400
     cases = []
     for p in PROTOS:
         for _ in range(n):
             cases.append(gen_script_case(rng, p, tab))
-    iout, crash = run_cases(impl, cases, timeout=900, args=["script"])
-    if crash:
-        ci, rc, errtxt = crash
-        p = rep.replay_file("script_crash_%d.case" % ci, "# implementation crashed or hung (rc=%s)\n# %s\n" % (rc, errtxt.replace("\n", "\n# ")) + "\n".join(cases[ci]) + "\n")
-        rep.violation(p, "scripted case: implementation crashed / hung (rc=%s): %s" % (rc, san_summary(errtxt)))
-        return {"cases": len(cases), "crashed": 1}
+    # the deterministic transport of harness/vtran.h has room for 256 pipes per process: batches of 40 cases
+    BATCH = 40
+    batches = [cases[i:i + BATCH] for i in range(0, len(cases), BATCH)]
+    with ThreadPoolExecutor(max_workers=NPROC) as ex:
+        outs = list(ex.map(lambda b: run_cases(impl, b, timeout=600, args=["script"]), batches))
+    iout = []
+    for bi, (o, crash) in enumerate(outs):
+        if crash:
+            ci, rc, errtxt = crash
+            gi = bi * BATCH + ci
+            p = rep.replay_file("script_crash_%d.case" % gi, "# implementation crashed or hung (rc=%s)\n# %s\nmark 0\n" % (rc, errtxt.replace("\n", "\n# ")) + "\n".join(cases[gi]) + "\n")
+            rep.violation(p, "scripted case: implementation crashed / hung (rc=%s): %s" % (rc, san_summary(errtxt)))
+            return {"cases": len(cases), "crashed": 1}
+        iout += o
     flagged = [script_flags(c, o) for c, o in zip(cases, iout)]
     mout, mcrash = run_cases(model, flagged, timeout=900, args=["script"])
     div, nspec, lines = [], 0, 0
